@@ -233,10 +233,16 @@ def check_operators(ctx, rng, n):
         # integer-coefficient divisor with a fractional number / list / array on the left (reflected operators)
         bi = numpoly.polynomial([2, q0, 4]) if rng.random() < .5 else numpoly.polynomial(2 * q0 + int(rng.integers(1, 4)))
         fnum = gen.choice(rng, [7.5, -2.25, [1.5, 2.5, 3.0] if bi.shape else [1.5], numpy.array(0.75)])
+        # a plain number / numpy scalar as the divisor, zero included (seeded change C05-8: `/` took a numeric short cut)
+        sdiv = gen.choice(rng, [2.0, 0.0, 0, numpy.float64(0.0), numpy.int64(0), -0.5, numpy.float32(0.0), numpy.int64(4)])
         ctx.evaluations += 1
         try:
             qd, rd = numpoly.poly_divmod(a, b)
-            pairs = [("/", a / b, numpoly.poly_divide(a, b)), ("%", a % b, numpoly.poly_remainder(a, b)),
+            pairs = [("poly / scalar %r" % (sdiv,), a / sdiv, numpoly.poly_divide(a, sdiv)),
+                     ("poly %% scalar %r" % (sdiv,), a % sdiv, numpoly.poly_remainder(a, sdiv)),
+                     ("divmod(poly, scalar %r)[0]" % (sdiv,), divmod(a, sdiv)[0], numpoly.poly_divmod(a, sdiv)[0]),
+                     ("identity with scalar divisor %r" % (sdiv,), (a / sdiv) * sdiv + a % sdiv, a + 0.0),
+                     ("/", a / b, numpoly.poly_divide(a, b)), ("%", a % b, numpoly.poly_remainder(a, b)),
                      ("divmod[0]", divmod(a, b)[0], qd), ("divmod[1]", divmod(a, b)[1], rd),
                      ("poly_divide", numpoly.poly_divide(a, b), qd), ("poly_remainder", numpoly.poly_remainder(a, b), rd),
                      ("reflected /", num / b, numpoly.poly_divide(num, b)), ("reflected %", num % b, numpoly.poly_remainder(num, b)),
